@@ -1,6 +1,7 @@
 package rules
 
 import (
+	"fmt"
 	"go/token"
 	"go/types"
 	"strings"
@@ -136,7 +137,60 @@ func runC09(c *Ctx) {
 				}
 			}
 			c.Check(okCopy, "C09.1-size-bound", FuncName(cb)+"|streams stored bytes", p.Pos(cb.Pos()), "each streamed change carries the raw bytes delivered by storage")
+
+			// ---- C09.5 announced heads: a batch announces a change as head only when the change is
+			// in the batch (the heads update follows the append) or the requester already has it
+			// (entry.removed). A heads update placed before the size cut announces a head that
+			// was not sent.
+			{
+				headsF := p.Field(otPkg + ":IteratorBatch.Heads")
+				removedF := p.Field(otPkg + ":rawCacheEntry.removed")
+				gRemoved := GCmp("entry.removed==true", func(a Atom) (bool, bool) {
+					if a.Op != token.ILLEGAL || !IsLoadOfField(a.X, removedF) {
+						return false, false
+					}
+					return true, true
+				})
+				pass, sites := gRemoved.PassEdges(cb)
+				isAppend := func(in ssa.Instruction) bool {
+					for _, ap := range appends {
+						if ap == in {
+							return true
+						}
+					}
+					return false
+				}
+				r := Reach(cb, ReachOpts{Removed: pass, Cut: isAppend})
+				bad := ""
+				nw := 0
+				for _, w := range FieldWrites([]*ssa.Function{cb}, headsF) {
+					nw++
+					if r.Reachable(w.Instr) {
+						bad = "batch.Heads is updated at " + p.Pos(InstrPos(w.Instr)) + " on a path where the change was neither appended to the batch nor already known to the requester (witness " + r.Path(p, w.Instr) + "): a batch cut by the size limit announces a head it does not carry"
+					}
+				}
+				if nw == 0 || len(sites) == 0 {
+					bad = fmt.Sprintf("the batch-building callback has %d heads update(s) and %d test(s) of entry.removed (rule table out of date)", nw, len(sites))
+				}
+				c.Check(bad == "", "C09.5-announced-heads", FuncName(cb)+"|heads follow the append", p.Pos(cb.Pos()), orDefault(bad, "every update of batch.Heads follows the append of that change to the batch, or is for an entry the requester already has"))
+			}
 		}
+	}
+
+	// ---- C09.5 (shared with C01.4) the common snapshot is computed from the CURRENT snapshot
+	// path: the cached path is served only while its first element is the tree's root.
+	{
+		sub := NewCtx(c.P, "C01", c.Tier)
+		runC01(sub)
+		n := 0
+		for _, o := range sub.Obls {
+			if o.Rule != "C01.4-snapshot-path-cache" {
+				continue
+			}
+			n++
+			c.Check(o.Held, "C09.5-snapshot-path-cache", strings.TrimPrefix(o.Key, o.Rule+"|"), o.Pos, o.Detail)
+		}
+		c.Min("C09.5-snapshot-path-cache", 3)
 	}
 
 	// ---- C09.2 storage order
